@@ -53,7 +53,7 @@ var exprPool = []string{
   }`, `(
     a +
     b
-  )`, "<<EOT\nheredoc ${x} line\n  second\nEOT", "<<-EOT\n    indented ${y.z}\n    EOT", `x != null ? x : "default"`, `a.b.c.d.e`, `l[length(l) - 1]`, `"${a}${b}"`, `"$${literal}"`, `1 == 1.0`,
+  )`, "<<EOT\nheredoc ${x} line\n  second\nEOT", "<<-EOT\n    indented ${y.z}\n    EOT", "<<EOT\n${x} at line start\n%{ if c }yes%{ endif }\nEOT", "<<-EOT\n  ${a.b}\n  EOT", `x != null ? x : "default"`, `a.b.c.d.e`, `l[length(l) - 1]`, `"${a}${b}"`, `"$${literal}"`, `1 == 1.0`,
 }
 
 func genName(r *rnd) string { return attrNames[r.n(len(attrNames))] }
